@@ -15,11 +15,14 @@ PROPS = {
         ],
     },
     "C15": {
-        "modules": ["Hannibal.Props.C15", "Hannibal.Props.C15Current"],
-        "theorems": ["Hannibal.C15_holds", "Hannibal.C15_current", "Hannibal.wellWired15_current"],
+        "modules": ["Hannibal.Props.C15", "Hannibal.Props.C15Current",
+                    "Hannibal.Props.C15IW", "Hannibal.Props.C15IWCurrent"],
+        "theorems": ["Hannibal.C15_holds", "Hannibal.C15_current", "Hannibal.wellWired15_current",
+                     "Hannibal.C15iw_holds", "Hannibal.C15iw_current"],
         "cases": {"quick": {"C15": 1200, "C05": 300}, "thorough": {"C15": 15000, "x:C15": 320, "C05": 5000, "C07": 3000}},
         "assumptions": COMMON_ASSUMPTIONS + [
-            "interval_with timers: judged by monC15iw on real traces only (not part of the theorem)",
+            "interval_with timers (monC15iw: a timer whose closure ran while a strong handle was held does not end "
+            "unless the actor became quiet) are theorem C15iw_holds under WellWired15",
             "'conversions never change which actor is addressed' is structural in the single-actor model (one "
             "handle table per actor); it is observed on traces through the actor id carried by every reply",
         ],
@@ -35,12 +38,14 @@ PROPS = {
         ],
     },
     "C07": {
-        "modules": ["Hannibal.Props.C07", "Hannibal.Props.C07Current"],
-        "theorems": ["Hannibal.C07_holds", "Hannibal.C07_current", "Hannibal.wellWired07_current"],
+        "modules": ["Hannibal.Props.C07", "Hannibal.Props.C07Current",
+                    "Hannibal.Props.C07O", "Hannibal.Props.C07OCurrent"],
+        "theorems": ["Hannibal.C07_holds", "Hannibal.C07_current", "Hannibal.wellWired07_current",
+                     "Hannibal.C07o_holds", "Hannibal.C07o_current"],
         "cases": {"quick": {"C07": 1500}, "thorough": {"C07": 20000, "x:C07": 320, "C03": 3000}},
         "assumptions": COMMON_ASSUMPTIONS + [
-            "order clause (monC07o: a message submitted after k accepted restarts is handled by incarnation k+1) "
-            "is judged on real traces only",
+            "the order clause and 'a non-restartable spawn ignores the request altogether' (monC07o) are theorem "
+            "C07o_holds under WellWired05 and wf01 (fresh message numbers / operation ids, checked on every real trace)",
             "handles stay valid across restarts: structural in the model (the handle table is untouched by restart steps)",
         ],
     },
@@ -90,11 +95,15 @@ PROPS = {
         ],
     },
     "C17": {
-        "modules": ["Hannibal.Props.C17", "Hannibal.Props.C17Current"],
-        "theorems": ["Hannibal.C17_holds", "Hannibal.C17_current"],
+        "modules": ["Hannibal.Props.C17", "Hannibal.Props.C17Current",
+                    "Hannibal.Props.C17N", "Hannibal.Props.C17NCurrent"],
+        "theorems": ["Hannibal.C17_holds", "Hannibal.C17_current",
+                     "Hannibal.C17n_holds", "Hannibal.C17n_current"],
         "cases": {"quick": {"C17": 1500}, "thorough": {"C17": 20000, "x:C17": 320, "C04": 3000}},
         "assumptions": COMMON_ASSUMPTIONS + [
-            "when None is allowed and that a join with the slot resolves only after termination (monC17n) are judged on real traces only",
+            "when None is allowed (monC17n) is theorem C17n_holds under fresh operation ids and consumeLast (no join / "
+            "consume begins after a consume began: consume(self) takes the owning address by value); both are checked on "
+            "every real trace and both are needed (witnesses c17n_consume_witness, c17n_reuse_witness)",
             "a second join that finds the join slot already taken returns None at once (interpretation of 'later joins yield None')",
             "detach / strong-handle behaviour of OwningAddr: covered by C05/C15 handle tables (owning is a strong kind)",
         ],
@@ -208,8 +217,10 @@ PROPS = {
         ],
     },
     "C09": {
-        "modules": ["Hannibal.Props.C09"],
-        "theorems": ["Hannibal.C09_holds", "Hannibal.c09_step", "Hannibal.deliver_ok"],
+        "modules": ["Hannibal.Props.C09",
+                    "Hannibal.Props.C09Q"],
+        "theorems": ["Hannibal.C09_holds", "Hannibal.c09_step", "Hannibal.deliver_ok",
+                     "Hannibal.C09q_holds", "Hannibal.C09qs_holds"],
         "driver": "brk09",
         "cases": {"quick": {"C09": 2500}, "thorough": {"C09": 50000}},
         "assumptions": [
@@ -219,10 +230,11 @@ PROPS = {
             "is taken up in FIFO order - assumed in the theorem, validated by the depth-first search for internal moves "
             "on real histories (a budget overrun counts as a rejection)",
             "publication numbers are fresh (wf09, checked on every real trace)",
-            "'exactly once to every definitely-subscribed live subscriber by quiescence' (quiescentOk) and 'the broker "
-            "never keeps a subscriber alive / terminated subscribers neither block nor fail a publish' are judged on "
-            "real quiescent traces: the model must be settled (empty mailbox, nothing in flight) at quiescence and "
-            "every publish of the family returns Ok although subscribers terminate at arbitrary positions",
+            "'exactly once to every definitely-subscribed live subscriber by quiescence' (quiescentOk) is theorem "
+            "C09q_holds for runs of the model that end settled (empty mailbox, nothing in flight) - which the acceptor "
+            "demands of every quiescent real history; 'the broker never keeps a subscriber alive / terminated subscribers "
+            "neither block nor fail a publish' are judged on the real traces: every publish of the family returns Ok "
+            "although subscribers terminate at arbitrary positions, and nothing may stay in flight",
             "one broker per topic type; topics are independent (the driver projects per topic)",
         ],
     },
